@@ -99,9 +99,15 @@ func runC28(r *Run) {
 					Entries:   []*playerinfo.Entry{{ProfileID: id, Profile: profile.GameProfile{ID: id, Name: fmt.Sprintf("p%d", o.id)}, GameMode: o.b, Listed: true, Latency: o.a}},
 				})
 			case "be-update":
+				ents := []*playerinfo.Entry{{ProfileID: id, GameMode: o.b, Latency: o.a}}
+				if o.a%3 == 0 {
+					// the periodic latency broadcast lists several players in one packet, some of
+					// which this viewer may not know (any more)
+					ents = []*playerinfo.Entry{{ProfileID: tabUUID(20 + o.b), GameMode: o.b, Latency: o.a}, ents[0], {ProfileID: tabUUID((o.id+1)%3 + 4 - map[bool]int{true: 4, false: 0}[overlap]), GameMode: (o.b + 1) % 4, Latency: o.a + 1}}
+				}
 				_ = bc.send(&playerinfo.Upsert{
 					ActionSet: []playerinfo.UpsertAction{playerinfo.UpdateGameModeAction, playerinfo.UpdateLatencyAction},
-					Entries:   []*playerinfo.Entry{{ProfileID: id, GameMode: o.b, Latency: o.a}},
+					Entries:   ents,
 				})
 			case "be-remove":
 				_ = bc.send(&playerinfo.Remove{PlayersToRemove: []uuid.UUID{id}})
